@@ -6,8 +6,10 @@ import (
 	"fmt"
 	"os"
 	"strings"
+	"sync/atomic"
 	"testing"
 	"testing/synctest"
+	"time"
 )
 
 // MainBubble is Main for engines that need virtual time: in "run" mode every case
@@ -60,6 +62,29 @@ func MainBubble(e BubbleEngine) {
 		c := cases[len(cases)-1]
 		c.ops = append(c.ops, line)
 	}
+	// real-time watchdog: an op that does not finish within 30 s (a goroutine blocked for ever on a
+	// mutex is not "durably blocked" for synctest, so nothing else would notice) is reported in place of
+	// its output line and the process ends; the remaining cases are reported as missing by the comparison.
+	var curOp atomic.Value
+	var opSeq atomic.Int64
+	curOp.Store("")
+	go func() {
+		last := int64(-1)
+		stale := 0
+		for {
+			time.Sleep(time.Second)
+			if n := opSeq.Load(); n != last {
+				last, stale = n, 0
+				continue
+			}
+			stale++
+			if stale >= 30 {
+				out.P("X stuck for 30s in op: %s", curOp.Load().(string))
+				out.Flush()
+				os.Exit(0)
+			}
+		}
+	}()
 	testing.Init()
 	flag.CommandLine.Parse([]string{"-test.timeout=0"})
 	testing.Main(func(pat, str string) (bool, error) { return true, nil },
@@ -76,7 +101,10 @@ func MainBubble(e BubbleEngine) {
 						e.Case(c.id)
 						defer e.CaseEnd()
 						for _, line := range c.ops {
+							curOp.Store(line)
+							opSeq.Add(1)
 							runOp(e, strings.Fields(line), line, out)
+							opSeq.Add(1)
 						}
 					})
 				}()
